@@ -103,7 +103,7 @@ func c17() []*Ob {
 					return
 				}
 				for _, f := range []string{"IDs", "Positions", "tokensInDocs", "tokensIndex", "MinMID", "MaxMID", "DocsCounter"} {
-					if len(InstrsIn(fn, FieldStore("frac.metaDataCollector", f))) > 0 {
+					if Current.Has(fn, FieldStore("frac.metaDataCollector", f)) {
 						c.Site(fn.Pos(), "Filter assigns %s", f)
 					} else {
 						c.Violation("fields:Filter:"+f, fn.Pos(), "Filter does not rebuild collector.%s: after dropping repeated ids this column no longer lines up with IDs (documents get a neighbour's positions/tokens or the fraction's document count includes the repeats)", f)
@@ -112,7 +112,7 @@ func c17() []*Ob {
 				// the columns reset per bulk are the ones Filter rebuilds
 				if init := c.Fn("(*frac.metaDataCollector).Init"); init != nil {
 					for _, f := range []string{"IDs", "Positions", "tokensInDocs", "tokensIndex"} {
-						if len(InstrsIn(init, FieldStore("frac.metaDataCollector", f))) == 0 {
+						if !Current.Has(init, FieldStore("frac.metaDataCollector", f)) {
 							c.Violation("fields:Init:"+f, init.Pos(), "Init no longer resets collector.%s per bulk", f)
 						}
 					}
@@ -217,7 +217,7 @@ func c17() []*Ob {
 								guarded = true
 							}
 						}
-						if bo, ok := f.Cond.(*ssa.BinOp); ok && bo.Op == token.EQL && f.Val {
+						if bo, ok := f.Cond.(*ssa.BinOp); ok && (bo.Op == token.EQL && f.Val || bo.Op == token.NEQ && !f.Val) {
 							guarded = true
 						}
 					}
@@ -231,7 +231,7 @@ func c17() []*Ob {
 								if ex, ok := f.Cond.(*ssa.Extract); ok && ex.Index == 1 && !f.Val {
 									e = true
 								}
-								if bo, ok := f.Cond.(*ssa.BinOp); ok && bo.Op == token.EQL && f.Val {
+								if bo, ok := f.Cond.(*ssa.BinOp); ok && (bo.Op == token.EQL && f.Val || bo.Op == token.NEQ && !f.Val) {
 									e = true
 								}
 							}
